@@ -223,7 +223,25 @@ func r16_2(c *RC) {
 				c.Bad("default-seed", cl.Pos(), "generateImplicitTrafficPattern uses %s", id)
 			}
 			if strings.HasSuffix(id, "rng.FixedIntVH") {
-				c.OK("default-seed", cl.Pos(), "an unset seed defaults to a host-and-version stable value")
+				// "unset" is decided by presence (the optional field's
+				// pointer), never by the value: an explicit seed of 0 is a seed
+				presence := false
+				var other []string
+				for _, ce := range controllingEdges(cl.Block()) {
+					bo, ok := ce.If.Cond.(*ssa.BinOp)
+					if ok && isNilConst(bo.Y) && ((bo.Op == token.EQL && ce.Idx == 0) || (bo.Op == token.NEQ && ce.Idx == 1)) {
+						if f := fieldOrigin(bo.X); f != nil && f.Name() == "Seed" {
+							presence = true
+							continue
+						}
+					}
+					other = append(other, describe(ce.If.Cond))
+				}
+				if presence && len(other) == 0 {
+					c.OKH("default-seed", cl.Pos(), "the host-and-version seed is used exactly when original.Seed == nil")
+				} else {
+					c.Bad("default-seed", cl.Pos(), "the host-derived default seed is selected by %v instead of the absence of the seed field: an explicitly configured seed value is then overridden and two hosts sharing the pattern emit different traffic", other)
+				}
 			}
 		}
 	})
